@@ -17,6 +17,9 @@
 #include "stir/IndexRange2D.h"
 #include "stir/SegmentBySinogram.h"
 #include "stir/multiply_crystal_factors.h"
+#include "stir/recon_buildblock/ML_estimate_component_based_normalisation.h"
+#include "stir/recon_buildblock/BinNormalisationPETFromComponents.h"
+#include "stir/stream.h"
 #include <algorithm>
 #include <cstdarg>
 #include <cmath>
@@ -120,6 +123,17 @@ with_gaps(int y, int cpb, int v)
       if (phys == y)
         return x;
     }
+}
+
+// independent gap removal: number of physical crystals before x
+static int
+phys_index(int x, int cpb, int v)
+{
+  int n = 0;
+  for (int y = 0; y < x; ++y)
+    if (y % cpb < cpb - v)
+      ++n;
+  return n;
 }
 
 static bool
@@ -540,6 +554,36 @@ run_config(vh::Rng& rng, const Cfg& c, bool thorough)
                        eff[rb][b], data_eff(ra, a, rb, b)));
     });
   }
+  // the normalisation object built from components: the efficiency of a bin is the product of its two detectors' factors,
+  // 0 in the gaps
+  {
+    BinNormalisationPETFromComponents norm;
+    norm.allocate(pdi, /*do_eff*/ true, /*do_geo*/ false, /*do_block*/ false, /*do_symmetry_per_block*/ true);
+    norm.crystal_efficiencies() = eff;
+    if (norm.set_up(ex, pdi) != Succeeded::yes)
+      oracle(false, "norm-from-components", ctx + " BinNormalisationPETFromComponents::set_up failed");
+    else
+      for (int s = pd.get_min_segment_num(); s <= pd.get_max_segment_num(); ++s)
+        for (int ax = pd.get_min_axial_pos_num(s); ax <= pd.get_max_axial_pos_num(s); ++ax)
+          for (int v = 0; v < N / 2; ++v)
+            for (int tp = -h; tp <= h; ++tp)
+              {
+                Bin bin(s, v, ax, tp);
+                DetectionPositionPair<> dp;
+                cyl.get_det_pos_pair_for_bin(dp, bin);
+                const int a = dp.pos1().tangential_coord(), ra = dp.pos1().axial_coord();
+                const int b = dp.pos2().tangential_coord(), rb = dp.pos2().axial_coord();
+                const bool in_gap = is_virtual(a, tcpb, vt) || is_virtual(b, tcpb, vt) || is_virtual(ra, acpb, va)
+                                    || is_virtual(rb, acpb, va);
+                const double expected = in_gap ? 0.
+                                               : static_cast<double>(eff[phys_index(ra, acpb, va)][phys_index(a, tcpb, vt)])
+                                                     * eff[phys_index(rb, acpb, va)][phys_index(b, tcpb, vt)];
+                const float got = norm.get_bin_efficiency(bin);
+                oracle(close_rel(got, expected, 4 * 2 * 5.97e-8), "norm-from-components",
+                       ctx + str(" bin(seg=%d ax=%d view=%d tang=%d) dets (%d,%d)-(%d,%d): bin efficiency %g, product of the two crystal efficiencies %g",
+                                 s, ax, v, tp, ra, a, rb, b, got, expected));
+              }
+  }
   // multiply_crystal_factors (projection-data side) agrees with apply_efficiencies (fan side) for gap-free scanners
   if (vt == 0 && va == 0)
     {
@@ -782,6 +826,199 @@ run_config(vh::Rng& rng, const Cfg& c, bool thorough)
     ++g_stats.geo_skipped;
 }
 
+
+// ---------------------------------------------------------------------------------------------------------------------
+// end to end: ML_estimate_component_based_normalisation on a tiny scanner, output files under <implfile>_ml*
+
+template <class A>
+static bool
+read_array(A& a, const std::string& filename)
+{
+  std::ifstream in(filename.c_str());
+  if (!in)
+    return false;
+  in >> a;
+  return static_cast<bool>(in);
+}
+
+static void
+run_end_to_end(vh::Rng& rng, const Cfg& c, const std::string& prefix, bool poisson_data)
+{
+  shared_ptr<Scanner> sc = make_block_scanner(c);
+  const int N = sc->get_num_detectors_per_ring();
+  shared_ptr<ProjDataInfo> pdi = vh::make_pdi(sc, 1, c.max_delta, N / 2, c.num_tang, false);
+  shared_ptr<ExamInfo> ex = std::make_shared<ExamInfo>();
+  const std::string ctx = str("[ML_estimate type=%d ntb=%d tcpb_phys=%d nab=%d acpb_phys=%d max_delta=%d num_tang=%d %s]", c.type, c.ntb,
+                              c.tcpb_phys, c.nab, c.acpb_phys, c.max_delta, c.num_tang, poisson_data ? "Poisson" : "exact");
+  const int vt = sc->get_num_virtual_transaxial_crystals_per_block(), va = sc->get_num_virtual_axial_crystals_per_block();
+  const int acpb_p = sc->get_num_axial_crystals_per_block() - va, tcpb_p = sc->get_num_transaxial_crystals_per_block() - vt;
+  const int nab = sc->get_num_axial_blocks(), ntb = sc->get_num_transaxial_blocks();
+
+  // model projection data: positive everywhere
+  ProjDataInMemory model_pd(ex, pdi);
+  for (int s = model_pd.get_min_segment_num(); s <= model_pd.get_max_segment_num(); ++s)
+    {
+      SegmentBySinogram<float> seg = model_pd.get_empty_segment_by_sinogram(s);
+      for (auto it = seg.begin_all(); it != seg.end_all(); ++it)
+        *it = static_cast<float>(rng.range(20, 60));
+      model_pd.set_segment(seg);
+    }
+  FanProjData model_fan;
+  make_fan_data_remove_gaps(model_fan, model_pd);
+  const int Rp = model_fan.get_num_rings(), Np = model_fan.get_num_detectors_per_ring();
+  DetectorEfficiencies true_eff(IndexRange2D(Rp, Np));
+  for (int r = 0; r < Rp; ++r)
+    for (int a = 0; a < Np; ++a)
+      true_eff[r][a] = rng.range(6, 10) / 8.F;
+  FanProjData mean_fan = model_fan;
+  apply_efficiencies(mean_fan, true_eff, true);
+  if (poisson_data)
+    {
+      std::vector<float> vals;
+      for_canon(mean_fan, [&](int ra, int a, int rb, int b) {
+        if (rb > ra || a < b % Np)
+          vals.push_back(poisson(rng, mean_fan(ra, a, rb, b)));
+      });
+      std::size_t k = 0;
+      fill_sym(mean_fan, [&]() { return vals[k++]; });
+    }
+  ProjDataInMemory measured_pd(ex, pdi);
+  set_fan_data_add_gaps(measured_pd, mean_fan, 0.F);
+
+  const int num_eff = 6, num_iter = 2;
+  const bool do_geo = tcpb_p % 2 == 0, do_block = true;
+  ML_estimate_component_based_normalisation(prefix, measured_pd, model_pd, num_eff, num_iter, do_geo, do_block,
+                                            /*do_symmetry_per_block*/ true, /*do_KL*/ false, /*do_display*/ false);
+
+  // the same computation from the building blocks (each of them checked above), step by step as documented
+  FanProjData measured_fan, fan;
+  make_fan_data_remove_gaps(measured_fan, measured_pd);
+  for_canon(model_fan, [&](int ra, int a, int rb, int b) {
+    if (model_fan(ra, a, rb, b) == 0)
+      measured_fan(ra, a, rb, b) = 0;
+  });
+  DetectorEfficiencies sums(IndexRange2D(Rp, Np)), eff(IndexRange2D(Rp, Np));
+  GeoData3D measured_geo(acpb_p, tcpb_p / 2, Rp, Np), norm_geo(acpb_p, tcpb_p / 2, Rp, Np);
+  BlockData3D measured_block(nab, ntb, nab - 1, ntb - 1), norm_block(nab, ntb, nab - 1, ntb - 1);
+  make_fan_sum_data(sums, measured_fan);
+  make_geo_data(measured_geo, measured_fan);
+  make_block_data(measured_block, measured_fan);
+  auto cmp2 = [&](const Array<2, float>& x, const Array<2, float>& y, const std::string& what) {
+    bool ok = x.get_length() == y.get_length();
+    if (ok)
+      for (int r = x.get_min_index(); r <= x.get_max_index() && ok; ++r)
+        for (int a = x[r].get_min_index(); a <= x[r].get_max_index(); ++a)
+          if (!close_rel(x[r][a], y[r][a], 1e-5))
+            {
+              ok = false;
+              break;
+            }
+    oracle(ok, "ml-estimate-eff", ctx + " file " + what + " differs from the documented sequence of iterate_* steps");
+  };
+  double prev_kl = -1;
+  for (int iter = 1; iter <= num_iter; ++iter)
+    {
+      if (iter == 1)
+        {
+          eff.fill(std::sqrt(sums.sum() / model_fan.sum()));
+          norm_geo.fill(1);
+          norm_block.fill(1);
+        }
+      fan = model_fan;
+      apply_geo_norm(fan, norm_geo);
+      apply_block_norm(fan, norm_block);
+      // The descent statement is about a symmetric product model.  Estimated block / geometric factors give the two stored
+      // copies (ra,a,ra,b), (ra,b,ra,a) of an in-ring LOR different values (they belong to different block pairs), so from
+      // the second outer iteration on the model in use need not be symmetric: the oracle is evaluated only when it is.
+      double asym = 0;
+      for_canon(fan, [&](int ra, int a, int rb, int b) {
+        if (rb == ra)
+          asym = std::max(asym, std::fabs(static_cast<double>(fan(ra, a, ra, b % Np)) - fan(ra, b % Np, ra, a))
+                                    / std::max(1e-30, static_cast<double>(fan(ra, a, ra, b % Np))));
+      });
+      const bool model_symmetric = asym <= 1e-6;
+      for (int e = 1; e <= num_eff; ++e)
+        {
+          // KL between the data and (model*geo*block)*eff*eff before this step
+          FanProjData est = fan;
+          apply_efficiencies(est, eff, true);
+          const double kl_before = kl_pairs(measured_fan, est, 0.);
+          iterate_efficiencies(eff, sums, fan);
+          DetectorEfficiencies from_file;
+          const std::string fn = str("%s_eff_%d_%d.out", prefix.c_str(), iter, e);
+          if (!read_array(from_file, fn))
+            oracle(false, "ml-estimate-output", ctx + " cannot read " + fn);
+          else
+            {
+              cmp2(from_file, eff, str("eff_%d_%d", iter, e));
+              // ORACLE through the top-level function: the efficiencies it wrote do not increase the KL distance
+              FanProjData est2 = fan;
+              apply_efficiencies(est2, from_file, true);
+              const double kl_after = kl_pairs(measured_fan, est2, 0.);
+              if (model_symmetric)
+                oracle(kl_after <= kl_before * (1 + 1e-5) + 1e-6, "ml-estimate-kl-descent",
+                     ctx + str(" outer iteration %d efficiency iteration %d: KL over detector pairs went from %.9g to %.9g", iter, e,
+                               kl_before, kl_after));
+              prev_kl = kl_after;
+            }
+        }
+      fan = model_fan;
+      apply_efficiencies(fan, eff);
+      apply_block_norm(fan, norm_block);
+      if (do_geo)
+        iterate_geo_norm(norm_geo, measured_geo, fan);
+      {
+        GeoData3D from_file;
+        const std::string fn = str("%s_geo_%d.out", prefix.c_str(), iter);
+        if (!read_array(from_file, fn))
+          oracle(false, "ml-estimate-output", ctx + " cannot read " + fn);
+        else
+          {
+            bool ok = true;
+            for_geo(model_fan, norm_geo, [&](int ra, int a, int rb, int b) {
+              if (!close_rel(from_file(ra, a, rb, b), norm_geo(ra, a, rb, b), 1e-5))
+                ok = false;
+            });
+            oracle(ok, "ml-estimate-geo", ctx + str(" file geo_%d differs from the documented sequence of iterate_* steps", iter));
+          }
+      }
+      fan = model_fan;
+      apply_efficiencies(fan, eff);
+      apply_geo_norm(fan, norm_geo);
+      if (do_block)
+        iterate_block_norm(norm_block, measured_block, fan);
+      {
+        BlockData3D from_file;
+        const std::string fn = str("%s_block_%d.out", prefix.c_str(), iter);
+        if (!read_array(from_file, fn))
+          oracle(false, "ml-estimate-output", ctx + " cannot read " + fn);
+        else
+          {
+            bool ok = from_file.get_num_rings() == norm_block.get_num_rings()
+                      && from_file.get_num_detectors_per_ring() == norm_block.get_num_detectors_per_ring();
+            if (ok)
+              for_canon(norm_block, [&](int ra, int a, int rb, int b) {
+                if (!close_rel(from_file(ra, a, rb, b), norm_block(ra, a, rb, b), 1e-5))
+                  ok = false;
+              });
+            oracle(ok, "ml-estimate-block", ctx + str(" file block_%d differs from the documented sequence of iterate_* steps", iter));
+          }
+      }
+    }
+  if (!poisson_data)
+    { // data generated exactly from model*eff*eff: after the iterations the fan sums of the estimate reproduce those of the data
+      FanProjData est = model_fan;
+      apply_geo_norm(est, norm_geo);
+      apply_block_norm(est, norm_block);
+      apply_efficiencies(est, eff, true);
+      const double kl0 = kl_pairs(measured_fan, model_fan, 0.);
+      const double kl = kl_pairs(measured_fan, est, 0.);
+      oracle(kl <= 1e-3 * kl0, "ml-estimate-fit",
+             ctx + str(" data generated exactly from the model: KL of the estimate %.6g is not small against KL of the bare model %.6g", kl, kl0));
+    }
+  (void)prev_kl;
+}
+
 // Fixed (seed-independent) minimal reproductions of the two candidate defects, directly on FanProjData.
 static void
 run_known_reproductions()
@@ -810,6 +1047,8 @@ run_known_reproductions()
   { // KL: 3 rings of 6 detectors, all ring differences, half fan 1
     const int Rp = 3, Np = 6, md = 2, h = 1;
     vh::Rng rng(2);
+    for (int skip = 0; skip < 4; ++skip)
+      rng.next(); // (the stream position at which this data set was found)
     FanProjData model(Rp, Np, md, 2 * h + 1), data(Rp, Np, md, 2 * h + 1);
     fill_sym(model, [&]() { return static_cast<float>(rng.range(1, 20)); });
     fill_sym(data, [&]() { return static_cast<float>(rng.range(0, 12)); });
@@ -862,7 +1101,7 @@ main(int argc, char** argv)
   cfgs.push_back(Cfg{ 0, 4, 4, 2, 2, 3, 9 });
   cfgs.push_back(Cfg{ 2, 4, 4, 2, 2, 4, 11 });
   // generated
-  const int want = thorough ? 60 : 14;
+  const int want = thorough ? 160 : 14;
   int guard = 0;
   while (static_cast<int>(cfgs.size()) < want + 6 && ++guard < 100000)
     {
@@ -886,16 +1125,32 @@ main(int argc, char** argv)
         continue;
       // keep the amount of data per configuration bounded
       const long entries = static_cast<long>(R) * N * (c.max_delta + 1) * fan_size;
-      if (entries > (thorough ? 40000 : 9000))
+      if (entries > (thorough ? 60000 : 9000))
         continue;
       cfgs.push_back(c);
     }
 
+  run_known_reproductions();
   for (std::size_t i = 0; i < cfgs.size(); ++i)
-    run_config(rng, cfgs[i], thorough);
+    {
+      run_config(rng, cfgs[i], thorough);
+      std::fflush(g_ops);
+      std::fflush(g_out);
+      std::fflush(g_orc);
+    }
   for (int kind = 0; kind < 3; ++kind)
     run_error_config(rng, kind);
-  run_known_reproductions();
+  {
+    const std::string prefix = std::string(argv[4]) + "_ml";
+    run_end_to_end(rng, Cfg{ 0, 4, 2, 2, 2, 3, 5 }, prefix + "0", false);
+    run_end_to_end(rng, Cfg{ 0, 4, 2, 2, 2, 3, 5 }, prefix + "1", true);
+    run_end_to_end(rng, Cfg{ 2, 4, 2, 2, 2, 4, 5 }, prefix + "2", true);
+    if (thorough)
+      {
+        run_end_to_end(rng, Cfg{ 1, 6, 2, 1, 2, 1, 7 }, prefix + "3", true);
+        run_end_to_end(rng, Cfg{ 0, 6, 4, 3, 1, 2, 9 }, prefix + "4", false);
+      }
+  }
 
   std::fprintf(g_orc,
                "INFO configs=%ld with_gaps=%ld window_bins=%ld fan_entries=%ld block_skipped=%ld geo_skipped=%ld kl_runs=%ld\n",
